@@ -307,11 +307,11 @@ class Emit:
             ws = []
             for ent in s["ws"]:
                 it = ent["it"]
-                wv = self.expr(ent["w"])
+                # (operands are built in the order a user writes them: the value or the bounds, then the weight)
                 if it["k"] == "v":
-                    ws.append(vsc.weight(self.expr(it["e"]), wv))
+                    ws.append(vsc.weight(self.expr(it["e"]), self.expr(ent["w"])))
                 else:
-                    ws.append(vsc.weight((self.expr(it["lo"]), self.expr(it["hi"])), wv))
+                    ws.append(vsc.weight((self.expr(it["lo"]), self.expr(it["hi"])), self.expr(ent["w"])))
             vsc.dist(self.expr(s["e"]), ws)
         else:
             raise ValueError("stmt kind " + k)
